@@ -35,6 +35,8 @@ def gen_cases(tier, seed):
                     "cfg": {"p_cont": 0.4, "p_opq": 0.2, "p_unpack": 0.2, "p_kw": 0.3}})
     for i in range(n // 20):
         out.append({"seed": env.seed_for(seed, ID, tier, "wrapped", i), "mode": "wrapped"})
+    for i in range(n // 20):
+        out.append({"seed": env.seed_for(seed, ID, tier, "mutated", i), "mode": "mutated"})
     out.extend(preempt.gen_descs(tier, seed, ID))  # "the same for every ... timing": deterministic single-preemption enumeration
     return out
 
@@ -75,6 +77,50 @@ def compare_args(ir, E, nid, seen):
             if not irmod.struct_eq(got, want):
                 return f"n{nid} keyword {k}: got {irmod.canon(got, ir.opaque_ids)[:200]} expected {irmod.canon(want, ir.opaque_ids)[:200]}"
     return None
+
+
+def run_mutated(desc):
+    """One mutable container object (holding nodes) is handed to several plan.call / gather calls and MUTATED in between (append, replaced
+    entry, new key): every call is built from what the container held when the call was made - as direct evaluation line by line would see."""
+    import uberjob
+
+    rng = random.Random(desc["seed"])
+    plan = uberjob.Plan()
+    src = [plan.call((lambda i=i: i + 1)) for i in range(rng.randint(2, 5))]
+    acc_list, acc_dict, acc_set = [], {}, set()
+    nodes, want = [], []
+    vals = [i + 1 for i in range(len(src))]
+    for step, (n_, v_) in enumerate(zip(src, vals)):
+        kind = rng.choice(["list", "dict", "nested", "list"])
+        if kind == "list":
+            acc_list.append(n_)
+            nodes.append(plan.call(lambda xs: sum(xs), acc_list))
+            want.append(sum(vals[j] for j in range(len(vals)) if src[j] in acc_list))
+        elif kind == "dict":
+            acc_dict["k%d" % (step % 2)] = n_  # sometimes REPLACES an entry of the same dict object
+            nodes.append(plan.call(lambda d: sorted(d.items()), acc_dict))
+            want.append(sorted((k, vals[src.index(x)]) for k, x in acc_dict.items()))
+        else:
+            acc_list.append(n_)
+            outer = [acc_list, {"again": acc_list}]
+            nodes.append(plan.gather(outer))
+            cur = [vals[src.index(x)] for x in acc_list]
+            want.append([cur, {"again": cur}])
+    bad = None
+    for W in (1, 3):
+        try:
+            got = uberjob.run(plan, output=nodes, max_workers=W, progress=None)
+        except BaseException as e:
+            bad = f"run raised {e!r} (cause {e.__cause__!r})"
+            break
+        if got != want:
+            bad = f"run returned {got!r}; line-by-line evaluation gives {want!r}"
+            break
+    res = {"status": "ok", "counters": {"mutated_container_cases": 1, "runs": 2}, "sets": {"features_exercised": ["mutated_containers"]}, "nontrivial": True,
+           "sig": f"mutated|{desc['seed'] % 100000}"}
+    if bad:
+        res.update(status="violation", detail=f"[one container object reused and mutated between calls] {bad}", mechanism="value-mismatch")
+    return res
 
 
 def run_wrapped(desc):
@@ -160,6 +206,8 @@ def run_case(desc):
 
     if desc.get("mode") == "wrapped":
         return run_wrapped(desc)
+    if desc.get("mode") == "mutated":
+        return run_mutated(desc)
     if desc.get("mode") == "preempt1":
         r_ = preempt.enumerate_case(desc, preempt_oracle)
         r_.setdefault("sets", {})["features_exercised"] = ["preempt1"]
